@@ -265,7 +265,7 @@ const STUB_LOOP: &[&str] = &[
     "std::sync::{Barrier, Mutex, mpsc, atomics}, thread park/unpark/spawn — dsim models",
     "the TSC instruction — dsim virtual counter (hook H5)",
     "the wrapped allocator — MockAlloc (fabricated pointers, never dereferenced)",
-    "measurement of benchmarking overheads — simulator-provided constants (hook H6)",
+    "measurement of benchmarking overheads — simulator-provided constants (hook H6); in a quarter of the C04 and time-limited C19 runs the first request for them costs virtual time (fault kind slow_overhead_measurement), as the real one-off measurement does",
     "Instant::now — under simulation the OS timer reads the virtual clock (hook H9; 1 run in 5 uses Timer::Os)",
 ];
 
